@@ -81,7 +81,11 @@ impl PathSelector {
                     .included_paths
                     .iter()
                     .any(|p| p.matches_partially(&path)))
-                && self.excluded_paths.iter().all(|p| !p.matches_prefix(&path))
+                && self
+                    .excluded_paths
+                    .iter()
+                    .filter(|p| Self::matches_everything_below(p))
+                    .all(|p| !p.matches_prefix(&path))
         })
     }
 
@@ -120,6 +124,13 @@ impl PathSelector {
         } else {
             s + MAIN_SEPARATOR.to_string().as_str()
         }
+    }
+
+    /// Returns true if the pattern ends with a wildcard matching any sequence of characters,
+    /// i.e. when matching a directory implies matching everything below it.
+    fn matches_everything_below(pattern: &Pattern) -> bool {
+        let s = pattern.to_string();
+        s.ends_with(".*") && !s.ends_with("\\.*")
     }
 
     ///  Returns true if pattern can match absolute paths
